@@ -43,9 +43,10 @@ TIE = {
     'gen_dir': 'MalVerif/Py/GenLangType',
     'gen_modules': MODULE_ORDER,
     'order': 35,
-    'chain': ['MalVerif.Py.AbsLangType', 'MalVerif.Py.TieLangType', 'MalVerif.Py.TieLangTypeBuild',
-              'MalVerif.PropsGen.C15_Build'],
-    'needs': {'C15': ['MalVerif.Py.TieLangType', 'MalVerif.Py.TieLangTypeBuild', 'MalVerif.PropsGen.C15_Build']},
+    'chain': ['MalVerif.Py.AbsLangType', 'MalVerif.Py.TieLangTypePhases', 'MalVerif.Py.TieLangType',
+              'MalVerif.Py.TieLangTypeBuild', 'MalVerif.PropsGen.C15_Build'],
+    'needs': {'C15': ['MalVerif.Py.TieLangTypePhases', 'MalVerif.Py.TieLangType', 'MalVerif.Py.TieLangTypeBuild',
+                      'MalVerif.PropsGen.C15_Build']},
     'sources': {'C15': 'language/languagegraph.py: LanguageGraph._generate_graph, process_step_expression, '
                        'reverse_dep_chain, _get_associations_for_asset_type; '
                        'LanguageGraphAsset.get_all_common_superassets, is_subasset_of (argument may be None)'},
